@@ -553,9 +553,17 @@ func (db *SingleBucketBackend) ForceDeleteBucket(name string) error {
 		}
 	}
 
-	// Delete the bucket itself
-	if err := db.fs.RemoveAll("."); err != nil {
+	// The root of the file system is the bucket and BucketExists() keeps
+	// reporting it, so it has to stay; only remove what is left inside it
+	// (the directories of the deleted objects):
+	entries, err := afero.ReadDir(db.fs, ".")
+	if err != nil {
 		return err
+	}
+	for _, entry := range entries {
+		if err := db.fs.RemoveAll(entry.Name()); err != nil {
+			return err
+		}
 	}
 
 	return nil
